@@ -24,9 +24,9 @@ def run(tier, seed):
     base = {'prop': PROP, 'types': [('Skewness', None), ('Kurtosis', None)], 'P': 4, 'shapes': SHAPES,
             'max_offset_exp': 9, 'need_spread': True, 'min_n': 2}
     if tier == 'quick':
-        nseq, variants, mult = 2000, [('release', 1.0), ('dev', 0.25), ('std', 0.15)], 1
+        nseq, variants, mult = 2000, [('release', 1.0), ('dev', 0.25), ('std', 0.15), ('native', 0.15)], 1
     else:
-        nseq, variants, mult = 100000, [('release', 1.0), ('dev', 0.15), ('std', 0.15)], 8
+        nseq, variants, mult = 100000, [('release', 1.0), ('dev', 0.15), ('std', 0.15), ('native', 0.15)], 8
     total = Result()
     try:
         for variant, frac in variants:
@@ -36,7 +36,7 @@ def run(tier, seed):
         import bigcount
         for variant in ('release', 'dev'):
             binary = build(variant)
-            bc = [(t, ka, kb) for t in ('Skewness', 'Kurtosis') for ka, kb in [(16, 16), (31, 31), (32, 32), (33, 0), (33, 33), (40, 20), (53, 0)]]
+            bc = [(t, ka, kb) for t in ('Skewness', 'Kurtosis') for ka, kb in [(16, 16), (31, 31), (32, 32), (33, 0), (33, 33), (40, 20), (53, 0), (62, 62)]]
             descs = [{'name': 'b%s%d' % (variant[0], s), 'variant': variant, 'binary': binary, 'work': bc[s::8], 'prop': PROP,
                       'ar_work': ([(('Skewness', 'Kurtosis')[s % 2], 2 ** 32 + 1000 + s)] if (tier == 'thorough' and variant == 'release' and s < 4) else []),
                       'seed': seed * 7 + s} for s in range(8)]
